@@ -26,14 +26,14 @@ CLAIM = dict(
          "percolation_based_discrete_SIR and basic_discrete_SIR return the same rows and histories (deferred decisions, pathwise). "
          "The deferred-decision lift is proved too (coq/Props/C12law.v, over the `law` semantics of Base/Samp.v): for every graph, initial sets, horizon, iteration order, p and EVERY event on "
          "the whole output, the law of a whole run of basic_discrete_SIR (one fresh coin per tested contact) equals the law of flipping one coin per arc first and then running the "
-         "deterministic simulator (= BFS generations of the percolated digraph), in both return modes; total mass 1; final size = out-component of I0 in the percolated digraph; "
-         "percolation_based_discrete_SIR (one coin per undirected edge) and basic_discrete_SIR agree in law on every event of the rows; basic_discrete_SIS = one coin per (step, arc). "
+         "deterministic simulator (= BFS generations of the percolated digraph), in both return modes; total mass 1 (both modes); final size = out-component of I0 in the percolated digraph; "
+         "percolation_based_discrete_SIR (one coin per undirected edge) and basic_discrete_SIR agree in law on every event of the rows and node histories (both modes); basic_discrete_SIS = one coin per (step, arc). "
          "Tie: extracted model vs /repo on the same contact tables, exhaustively over all Bernoulli outcomes on small graphs, plus draw-by-draw replay of the p-based functions.",
     design='DESIGN.md section 4, C12',
     technique='Coq proof (BFS characterisation by induction over generations, product law by induction over the contact list) + extracted-model/implementation correspondence + independent BFS oracle',
     note="random.random uniform on [0,1), random.choice/sample uniform and independent draws are assumed (DESIGN 2.3). Equality in law of percolation_based_discrete_SIR "
-         "and basic_discrete_SIR (deferred decisions) is proved for every event of the rows with return_full_data=False (C12_perc_basic_rows_law); with full data the node histories agree pathwise "
-         "on a common table of coins (C12_perc_sir_pathwise), also checked dynamically. Total mass 1 of the run is proved for return_full_data=False. "
+         "and basic_discrete_SIR (deferred decisions) is proved for every event of the rows and node histories, both return modes (C12_perc_basic_hist_law); the joint law of the transmission lists "
+         "(which infector random.choice names) is not compared. Pathwise equality on a common table of coins (C12_perc_sir_pathwise) is also checked dynamically. "
          "The BFS theorem is proved for test_recovery=None and initial_infecteds given; runs with a user recovery test (BFS times for rules that are functions of the pair) and the rho path "
          "are covered by the correspondence and the independent oracle only. The draw-by-draw replay of the default-rule program is limited to runs with at most 10 uniform draws "
          "(the extracted sampler tree is strict in both branches of every Flip). "
